@@ -17,24 +17,24 @@ import (
 )
 
 // scripted is a rand.Source that replays fixed values.
-type scripted struct {
+type vfScripted struct {
 	vals []int64
 	i    int
 }
 
-func (s *scripted) Int63() int64 {
+func (s *vfScripted) Int63() int64 {
 	v := s.vals[s.i%len(s.vals)]
 	s.i++
 	return v
 }
-func (s *scripted) Seed(int64) {}
+func (s *vfScripted) Seed(int64) {}
 
-func upperMin(max time.Duration) time.Duration {
+func vfUpperMin(max time.Duration) time.Duration {
 	return time.Duration(0.75 * float64(max)).Truncate(time.Second)
 }
 
 func c05Direct(out *vfh.Out, i int, min, max time.Duration, draw int64) {
-	src := &scripted{vals: []int64{draw}}
+	src := &vfScripted{vals: []int64{draw}}
 	c := new(vfh.Toks).S("md").N(i).I(int64(min)).I(int64(max)).I(draw).String()
 	// "Choosing the wait never fails": a panic is an observation, not a crash of the harness.
 	defer func() {
@@ -46,7 +46,7 @@ func c05Direct(out *vfh.Out, i int, min, max time.Duration, draw int64) {
 	out.Line(c, new(vfh.Toks).I(int64(d)).String())
 }
 
-func genDraw(r *vfh.Rand, min, max time.Duration) int64 {
+func vfGenDraw(r *vfh.Rand, min, max time.Duration) int64 {
 	rng := int64(max - min)
 	if rng <= 0 {
 		return 0
@@ -95,7 +95,7 @@ func verifC05(t *testing.T, r *vfh.Rand, out *vfh.Out) {
 		default: // fractional
 			max = time.Duration(r.Range(int64(4*time.Second), int64(1800*time.Second)))
 		}
-		up := upperMin(max)
+		up := vfUpperMin(max)
 		switch {
 		case up < 3*time.Second || r.Chance(1, 6):
 			min = max // only possible through the default when max < 9 s; harmless otherwise
@@ -109,7 +109,7 @@ func verifC05(t *testing.T, r *vfh.Rand, out *vfh.Out) {
 		default:
 			min = time.Duration(r.Range(int64(3*time.Second), int64(up)))
 		}
-		c05Direct(out, vfh.Pick(r, idx), min, max, genDraw(r, min, max))
+		c05Direct(out, vfh.Pick(r, idx), min, max, vfGenDraw(r, min, max))
 	}
 
 	// (2) min = max < 9 s (the default for small max), whole and fractional
@@ -125,7 +125,7 @@ func verifC05(t *testing.T, r *vfh.Rand, out *vfh.Out) {
 	if vfh.Thorough() {
 		for mx := int64(4); mx <= 1800; mx++ {
 			max := time.Duration(mx) * time.Second
-			up := int64(upperMin(max) / time.Second)
+			up := int64(vfUpperMin(max) / time.Second)
 			for mn := int64(3); mn <= up; mn++ {
 				min := time.Duration(mn) * time.Second
 				rng := int64(max - min)
@@ -147,7 +147,7 @@ func verifC05(t *testing.T, r *vfh.Rand, out *vfh.Out) {
 		if r.Chance(1, 4) {
 			max = time.Duration(r.Range(int64(4*time.Second), int64(60*time.Second)))
 		}
-		up := upperMin(max)
+		up := vfUpperMin(max)
 		min := max
 		if up >= 3*time.Second {
 			min = time.Duration(r.Range(int64(3*time.Second), int64(up)))
@@ -161,7 +161,7 @@ func verifC05(t *testing.T, r *vfh.Rand, out *vfh.Out) {
 	// a slow consumer
 	for k := vfh.N(30, 400); k > 0; k-- {
 		max := time.Duration(r.Range(4, 60)) * time.Second
-		up := upperMin(max)
+		up := vfUpperMin(max)
 		min := max
 		if up >= 3*time.Second {
 			min = time.Duration(r.Range(3, int64(up/time.Second))) * time.Second
@@ -256,10 +256,10 @@ func c05LoopStall(t *testing.T, out *vfh.Out, min, max time.Duration, waits, sta
 // three capped at 16 s, every later one within [Min, Max].
 //
 //	mfw ntog { at } nsol { at host } min max n draws… | n gaps…
-func c05LoopLive(t *testing.T, out *vfh.Out, min, max time.Duration, waits int, togs []time.Duration, sols []advEvent) {
+func c05LoopLive(t *testing.T, out *vfh.Out, min, max time.Duration, waits int, togs []time.Duration, sols []vfAdvEvent) {
 	out.Pending(fmt.Sprintf("c05LoopLive min=%v max=%v waits=%d togs=%v sols=%+v", min, max, waits, togs, sols))
 	synctest.Test(t, func(t *testing.T) {
-		v := newVfAdv(vfAdvConfig(min, max, false, 1800*time.Second), false, nil)
+		v := vfNewVfAdv(vfAdvConfig(min, max, false, 1800*time.Second), false, nil)
 		seed := time.Now().UnixNano()
 		prng := rand.New(rand.NewSource(seed))
 		c := new(vfh.Toks).S("mfw").N(len(togs))
@@ -296,7 +296,7 @@ func c05LoopLive(t *testing.T, out *vfh.Out, min, max time.Duration, waits int, 
 				if d := e.t - time.Since(start); d > 0 {
 					time.Sleep(d)
 				}
-				if !v.conn.deliver(vfRead{m: advMessage(e), hop: 255, host: vfHosts[e.host].WithZone("vf0")}) {
+				if !v.conn.deliver(vfRead{m: vfAdvMessage(e), hop: 255, host: vfHosts[e.host].WithZone("vf0")}) {
 					return
 				}
 			}
@@ -312,7 +312,7 @@ func c05LoopLive(t *testing.T, out *vfh.Out, min, max time.Duration, waits int, 
 		synctest.Wait()
 
 		var at []time.Duration
-		for _, w := range sortedWrites(v.conn.snapshot()) {
+		for _, w := range vfSortedWrites(v.conn.snapshot()) {
 			if w.dst == vfAllNodes {
 				at = append(at, w.begin)
 			}
@@ -345,7 +345,7 @@ func verifC05Live(t *testing.T, r *vfh.Rand, out *vfh.Out) {
 		if r.Chance(1, 5) {
 			max = time.Duration(r.Range(90, 1800)) * time.Second
 		}
-		min := time.Duration(r.Range(7, int64(upperMin(max)/time.Second))) * time.Second
+		min := time.Duration(r.Range(7, int64(vfUpperMin(max)/time.Second))) * time.Second
 		waits := 5 + r.Intn(12)
 		span := int64(time.Duration(waits) * min)
 		var togs []time.Duration
@@ -353,14 +353,14 @@ func verifC05Live(t *testing.T, r *vfh.Rand, out *vfh.Out) {
 			togs = append(togs, time.Duration(r.Range(int64(time.Second), span))|1)
 		}
 		sort.Slice(togs, func(i, j int) bool { return togs[i] < togs[j] })
-		var sols []advEvent
+		var sols []vfAdvEvent
 		for j := r.Intn(6); j > 0; j-- {
-			sols = append(sols, advEvent{t: time.Duration(r.Range(int64(time.Second), span)) | 1, hop: 255, host: 1 + r.Intn(len(vfHosts)-1)})
+			sols = append(sols, vfAdvEvent{t: time.Duration(r.Range(int64(time.Second), span)) | 1, hop: 255, host: 1 + r.Intn(len(vfHosts)-1)})
 		}
 		// a solicitation shortly after a toggle: the answer is the first RA built from the new state
 		for _, d := range togs {
 			if r.Bool() {
-				sols = append(sols, advEvent{t: (d + time.Duration(r.Range(2, int64(2*time.Second)))) | 1, hop: 255, host: 1 + r.Intn(len(vfHosts)-1)})
+				sols = append(sols, vfAdvEvent{t: (d + time.Duration(r.Range(2, int64(2*time.Second)))) | 1, hop: 255, host: 1 + r.Intn(len(vfHosts)-1)})
 			}
 		}
 		sort.Slice(sols, func(i, j int) bool { return sols[i].t < sols[j].t })
